@@ -27,7 +27,7 @@ LEVEL = 'exploration'
 RUNS = {'quick': 3000, 'thorough': 250000}
 BATCH = {'quick': 50, 'thorough': 500}
 BUDGET_S = {'quick': 80.0, 'thorough': 1500.0}
-RULE = ('one run = one input file (minimal map v19/20/21 populated with a seeded subset of value groups through the library, '
+RULE = ('one run = one input file (committed corpus: minimal maps v19/20/21 and INFRA v22 / Chaos v25 / VitaminSource v43 layouts populated with a seeded subset of value groups through the library, '
         'optionally re-packed with LZMA-compressed lumps / game lumps / L4D2 header order by an independent codec; 1 run in 80 '
         'uses tests/test_vec/rot_main.bsp) and a seeded history of: access(view) for a seeded subset and order of the 21 views '
         '(biased to 1-3 views), indirect helpers, save, save-as, reopen, drop-and-collect. Non-trivial: >=1 view accessed '
